@@ -167,12 +167,12 @@ def corpus():
     # D06: 100/3 bpm written as 33.333
     c.append(dict(base, bpms=[[R(0), R(120)], [R(4000), R(100 / 3)]], hits=[[1, hx(""), R(4000)], [1, hx(""), R(4000 + 7200.0)]], holds=[],
                   _expect="D06"))
-    # D31: the first tempo point is not at 0
-    c.append(dict(base, bpms=[[R(500), R(120)]], hits=[[1, hx(""), R(500)], [1, hx(""), R(1500)]], holds=[], _expect="D31"))
-    # D32: measure 1000
-    c.append(dict(base, bpms=[[R(0), R(240)]], hits=[[1, hx(""), R(1000 * 1000.0)]], holds=[], _expect="D32"))
-    # D33: a hit inside a hold of its lane
-    c.append(dict(base, bpms=[[R(0), R(120)]], hits=[[4, hx(""), R(500)]], holds=[[4, hx(""), R(0), R(1000)]], _expect="D33"))
+    # D35: the first tempo point is not at 0
+    c.append(dict(base, bpms=[[R(500), R(120)]], hits=[[1, hx(""), R(500)], [1, hx(""), R(1500)]], holds=[], _expect="D35"))
+    # D36: measure 1000
+    c.append(dict(base, bpms=[[R(0), R(240)]], hits=[[1, hx(""), R(1000 * 1000.0)]], holds=[], _expect="D36"))
+    # D37: a hit inside a hold of its lane
+    c.append(dict(base, bpms=[[R(0), R(120)]], hits=[[4, hx(""), R(500)]], holds=[[4, hx(""), R(0), R(1000)]], _expect="D37"))
     c.append(dict(base, bpms=[[R(0), R(120)]], hits=[], holds=[]))
     c.append(dict(base, bpms=[[R(0), R(120)]], hits=[[1, hx(""), R(500 / 3)], [1, hx(""), R(125)], [1, hx(""), R(100)], [1, hx(""), R(500 / 7)],
                                                      [1, hx(""), R(2500 / 96)]], holds=[]))
@@ -410,13 +410,13 @@ def run(case, drv):
                                                                            holds=[(h[0], float(F(h[2])), float(F(h[3]))) for h in den["holds"]][:20],
                                                                            tempo=[(float(F(t[0])), t[2][0], str(F(t[2][1]))) for t in den["tempo"]][:10]))
             if d31:
-                kf = "D31"
+                kf = "D35"
             elif d06:
                 kf = "D06"
             elif d32:
-                kf = "D32"
+                kf = "D36"
             elif d33:
-                kf = "D33"
+                kf = "D37"
     for flag, name in ((d31, "d31-pred"), (d06, "d06-pred"), (d32, "d32-pred"), (d33, "d33-pred"), (off_grid, "off-grid"), (bool(case["holds"]), "holds")):
         if flag:
             tags.append(name)
